@@ -275,6 +275,7 @@ def run_case(ctx, drv, case, rng, thorough=False, verbose=False):
     if case.get("integrator") is not None:
         base_tags["integrator"] = case["integrator"]
     ok = True
+    state = {"viol": False, "corr": False}
     # Leja with boundary off builds the interpolatory rule on the points it keeps (announced = returned since the repair
     # of level_to_num_points_1d), so it is a complete rule of nominal degree n-1 for its n points
     complete = all(flags[d] or md or fams[d] in ("GaussLegendre", "Leja") for d in range(dim))
@@ -283,6 +284,7 @@ def run_case(ctx, drv, case, rng, thorough=False, verbose=False):
     def viol(probe, extra, detail):
         nonlocal ok
         ok = False
+        state["viol"] = True
         tags = dict(base_tags)
         tags.update(extra)
         ctx.violation(probe, tags, pub, detail)
@@ -292,6 +294,7 @@ def run_case(ctx, drv, case, rng, thorough=False, verbose=False):
     def corr(obs, impl, model):
         nonlocal ok
         ok = False
+        state["corr"] = True
         ctx.corr_break("C08/" + obs, pub, {"impl": str(impl)[:400], "model": str(model)[:400]})
         if verbose:
             print("  disagreement:", obs, "impl", str(impl)[:300], "model", str(model)[:300])
@@ -378,6 +381,7 @@ def run_case(ctx, drv, case, rng, thorough=False, verbose=False):
              {"exception": repr(exc)[:300], "dimension": dbad})
         if model_line is not None:
             corr("exception-vs-model", repr(exc)[:200], model_line[:200])
+        case["_outcome"] = 2
         return ok
 
     # ---------------- (a, c) repeated queries give the same answer; the returned containers are not the grid's state;
@@ -547,12 +551,18 @@ def run_case(ctx, drv, case, rng, thorough=False, verbose=False):
             if fams[d] != "Leja":
                 continue
             g1 = grid.grids[d]
-            try:     # the reference points depend on (count, borders) only: computed once per harness run (fmin is slow);
-                     # the model's transported points are compared with the grid's own coordinates below in any case
-                key = (int(g1.num_points_with_boundary), int(g1.lowerBorder), int(g1.upperBorder))
-                if key not in _LEJA_REF:
-                    _LEJA_REF[key] = [float(x) for x in g1.get_1D_level_points(g1.level, 0, 1)]
-                ts = _LEJA_REF[key]
+            try:     # reference points of the implementation's own construction (fmin), taken from an INDEPENDENT LejaGrid1D on
+                     # the unit interval (never from the object under test: reading its internals would hide or disturb cached
+                     # state); they depend on the point count only and are computed once per harness run; the kept slice follows
+                     # the tested grid's border indices
+                nwb = int(g1.num_points_with_boundary)
+                if nwb not in _LEJA_REF:
+                    from sparseSpACE import Grid as G
+                    ref = G.LejaGrid1D(a=0.0, b=1.0, boundary=True)
+                    ref.set_current_area(0.0, 1.0, int(g1.level))
+                    _LEJA_REF[nwb] = [float(x) for x in ref.coords]
+                    assert len(_LEJA_REF[nwb]) == nwb
+                ts = _LEJA_REF[nwb][int(g1.lowerBorder):int(g1.upperBorder)]
             except Exception:  # noqa: BLE001
                 ts = [(float(x) - start[d]) / (end[d] - start[d]) for x in grid.coordinate_array[d]]
             if not ts:
@@ -653,9 +663,9 @@ def run_case(ctx, drv, case, rng, thorough=False, verbose=False):
         # grid.integrate (through whichever integrator the grid was constructed with) agrees with sum w_i f(x_i) of
         # get_points_and_weights and with the closed form: the constant, one mixed monomial, the top nominal degree
         ks_list = [tuple(min(degs[d], 2) for d in range(dim))]
-        if case.get("integrator") is not None or rng.random() < 0.25:
-            ks_list += [tuple([0] * dim), tuple(min(degs[d], 3) for d in range(dim))]
-        for ks in (dict.fromkeys(ks_list) if (fam not in HIER and ok) else []):
+        if case.get("integrator") is not None or rng.random() < (0.25 if "Leja" not in fams else 0.0):
+            ks_list += [tuple([0] * dim), tuple(min(degs[d], 3) for d in range(dim))]     # (Leja: every call re-runs fmin)
+        for ks in (dict.fromkeys(ks_list) if (fam not in HIER and not state["viol"]) else []):
             csf, ssf = np.zeros(dim), np.ones(dim)
             try:
                 f = mono_function(ks, csf, ssf)
@@ -734,6 +744,7 @@ def run_case(ctx, drv, case, rng, thorough=False, verbose=False):
                      {"dimension": dbad, "returned": got[:6], "boundary_on_minus_global_boundary": expect[:6]})
         except Exception as e:  # noqa: BLE001
             viol("trap-boundary-off-drop", {"kind": "exception:" + type(e).__name__}, {"exception": repr(e)[:300]})
+    case["_outcome"] = 2 if state["viol"] else 1 if state["corr"] else 0
     return ok
 
 
@@ -789,7 +800,7 @@ def gen_levels(rng, dim, lmax, fam, cap=None):
 
 
 def gen_case(rng, thorough, fam=None):
-    fam = fam or rng.choice(["Trapezoidal", "Trapezoidal", "Trapezoidal", "Simpson", "Simpson", "ClenshawCurtis", "Leja",
+    fam = fam or rng.choice(["Trapezoidal", "Trapezoidal", "Trapezoidal", "Simpson", "Simpson", "ClenshawCurtis", "Leja", "Leja",
                              "GaussLegendre", "Lagrange", "BSpline", "Mixed", "Mixed"])
     dim = rng.choice([1, 1, 2, 2, 2, 3, 3, 4]) if fam not in HIER else rng.choice([1, 1, 2, 2, 3])
     if fam == "Mixed" and dim == 1:
@@ -865,7 +876,7 @@ def gen_sibling(rng, case):
             sib["p"] = rng.choice([1, 3])
             sib["boundary"] = True
         if twin == "Leja":
-            sib["lv"] = [min(l, 3) for l in sib["lv"]]
+            sib["lv"] = [min(l, 2) for l in sib["lv"]]
     else:
         sib.pop("bflags", None)
         if fam in HIER:
@@ -945,7 +956,7 @@ def run(ctx):
     malformed_stream(ctx, drv)
     rng = ctx.rng
     n_groups = 1500 if not thorough else 14000
-    budget = 80 if not thorough else 500
+    budget = 72 if not thorough else 480
     # a deterministic sweep first: every family x boundary flag x touching pattern x levels 0..3 in 1-D
     sweep = []
     for fam in FAMILIES:
@@ -955,8 +966,11 @@ def run(ctx):
                     for p in ([2, 3] if fam == "Lagrange" else [3] if fam == "BSpline" else [None]):
                         A, B = ([Fr(0)], [Fr(2)]) if rng.random() < 0.5 else gen_box(rng, 1, rng.random() < 0.3)
                         S, E = gen_subbox(rng, A, B, pat)
-                        for l in range(0, 6 if fam == "Leja" else 4):
-                            for integ in ([None, "old"] if fam in OLD_INTEGRATOR_FAMILIES else [None]):
+                        # Leja: fmin makes every area expensive -- levels 0..3 everywhere, level 5 (n=11, negative weights) on two
+                        # touching patterns, the point-by-point integrator where the weights can be negative (levels 3, 5)
+                        levels = ([0, 1, 2, 3] + ([5] if pat in ("both", "none") else [])) if fam == "Leja" else range(0, 4)
+                        for l in levels:
+                            for integ in ([None, "old"] if (fam in OLD_INTEGRATOR_FAMILIES and (fam != "Leja" or l in (3, 5))) else [None]):
                                 c = {"family": fam, "dim": 1, "a": [fstr(A[0])], "b": [fstr(B[0])], "start": [fstr(S[0])],
                                      "end": [fstr(E[0])], "lv": [l], "boundary": bd, "modified": mdf}
                                 if p is not None:
@@ -971,6 +985,7 @@ def run(ctx):
         safe_run_case(ctx, drv, c, rng, thorough)
         account(ctx, c, k)
         k += 1
+    ctx.extra["sweep_seconds"] = round(budget - ctx.time_left(budget), 1)
     for g in range(n_groups):
         if ctx.time_left(budget) < 0:
             ctx.count("stopped_by_time_budget")
@@ -980,6 +995,8 @@ def run(ctx):
         grid = sib = None
         history = []
         for rep in range(3):     # the same grid object serves several areas, as in the extend-split strategy
+            if rep > 0 and ctx.time_left(budget) < -5:
+                break
             if rep > 0:
                 A = [fr(x) for x in case["a"]]
                 B = [fr(x) for x in case["b"]]
@@ -1008,7 +1025,7 @@ def run(ctx):
             if sib_case is not None:
                 c["sibling"] = dict(sib_case, start=c["start"], end=c["end"], lv=c["lv"]) if sib_case["a"] == c["a"] else dict(sib_case)
                 if c["sibling"]["family"] == "Leja" or "Leja" in c["sibling"].get("fams", []):
-                    c["sibling"]["lv"] = [min(l, 3) for l in c["sibling"]["lv"]]
+                    c["sibling"]["lv"] = [min(l, 2 if c["sibling"]["family"] != c["family"] else 3) for l in c["sibling"]["lv"]]
                 ctx.count("with_sibling")
             if grid is None:
                 try:
@@ -1020,14 +1037,17 @@ def run(ctx):
                     break
             c_run = dict(c, _grid=grid, _sibling=sib)
             ok = safe_run_case(ctx, drv, c_run, rng, thorough)
+            outcome = c_run.get("_outcome", 1)
             history.append({"start": c["start"], "end": c["end"], "lv": c["lv"], "mode": c.get("mode", "set-area"),
                             "argtype": c.get("argtype", "array"), "lvtype": c.get("lvtype", "list")})
             if not ok:
                 ctx.count("failing_cases")
-                grid = None          # continue with a fresh object
+            if outcome == 2:
+                grid = None          # a failing input was found: continue with a fresh object (a model disagreement alone
+                                     # does NOT end the object's history -- the oracle must get its chance on the later requests)
             account(ctx, c, k)
             k += 1
-        if (len(ctx.violations) >= 40) or len(ctx.corr_breaks) >= 40:
+        if len(ctx.violations) >= 40:      # model disagreements alone never end the search for a failing input
             break
 
 
